@@ -7,6 +7,8 @@
   (`ScriptRun.runScriptCmd` uses fuel `scriptFuel` = 100000.)
 -/
 import DuckModel.Lemmas.ScriptRunLemmas
+import DuckModel.Lemmas.ScriptLoopConcat
+import DuckModel.Lemmas.ScriptLoopSetFromArray
 
 namespace Duck
 open Duck.Alias Duck.Coll Duck.ScriptRun Duck.Spec
@@ -70,6 +72,63 @@ theorem C07_script_map_contains_key_terminates (depth fuel : Nat) (hfuel : 4 ≤
   mck_terminates "map_contains_key".toList Generated.cmd_collections_map_contains_key
     (by rfl) (parsesTo_eq (by decide +kernel)) rfl (by decide) (by decide) (by decide)
     depth fuel hfuel args vars st
+
+/-! ### scripts with a `for … in` loop: fuel bound LINEAR in the number of cells
+
+Hypotheses about the flow-control state as in `C12_script_concat_correct` /
+`C12_script_set_from_array_correct` (no stale for-in entry of the script on top of the stack,
+cached block ends right). -/
+
+/-- `concat`: `3·n + 6` instructions for `n` arguments -/
+theorem C07_script_concat_terminates (depth fuel : Nat) (args : List Str) (vars : Vars) (st : ScriptSt)
+    (hstale : NoStaleFor "scope::concat".toList st.forStack)
+    (hcache : CacheOK st.forMeta "scope::concat::2".toList 4)
+    (hempty : args = [] → ∀ l, tget st.coll.tbl ((vars.get "scope::concat::arguments".toList).getD []) ≠ some (.list l))
+    (hfuel : 3 * args.length + 6 ≤ fuel) :
+    runScriptCmdF (depth + 1) fuel "concat".toList args vars st =
+      runScriptCmdF (depth + 1) (3 * args.length + 6) "concat".toList args vars st ∧
+    IsAnswer (runScriptCmdF (depth + 1) fuel "concat".toList args vars st).1 := by
+  obtain ⟨k, rfl⟩ : ∃ k, fuel = k + 3 * args.length + 6 := ⟨fuel - (3 * args.length + 6), by omega⟩
+  have h0 := concat_runF depth 0 args vars st hstale hcache hempty
+  rw [show 0 + 3 * args.length + 6 = 3 * args.length + 6 by omega] at h0
+  rw [concat_runF depth k args vars st hstale hcache hempty, h0]
+  exact ⟨rfl, trivial⟩
+
+/-- `set_from_array`: `3·n + 8` instructions for an array of `n` cells (8 when the argument names
+    no array; no instruction at all without an argument) -/
+theorem C07_script_set_from_array_terminates (depth fuel : Nat) (args : List Str) (vars : Vars) (st : ScriptSt)
+    (hfree : tget st.coll.tbl (Coll.handleName st.coll.next) = none)
+    (hfree1 : tget st.coll.tbl (Coll.handleName (st.coll.next + 1)) = none)
+    (hne : args.head? ≠ some (Coll.handleName st.coll.next))
+    (hok : ∀ a, args.head? = some a → ArgOK a = true)
+    (hstale : NoStaleFor "scope::set_from_array".toList st.forStack)
+    (hcI : IfCacheOK st.ifMeta "scope::set_from_array::1".toList 3)
+    (hcF : CacheOK st.forMeta "scope::set_from_array::6".toList 8)
+    (hfuel : 3 * (match args with | a :: _ => arrLen st.coll.tbl a | [] => 0) + 8 ≤ fuel) :
+    runScriptCmdF (depth + 2) fuel "set_from_array".toList args vars st =
+      runScriptCmdF (depth + 2) (3 * (match args with | a :: _ => arrLen st.coll.tbl a | [] => 0) + 8)
+        "set_from_array".toList args vars st ∧
+    IsAnswer (runScriptCmdF (depth + 2) fuel "set_from_array".toList args vars st).1 := by
+  cases args with
+  | nil =>
+    rw [runScriptCmdF_entry _ _ _ _ _ sfa_findScript sfa_parses, runScriptCmdF_entry _ _ _ _ _ sfa_findScript sfa_parses,
+      aliasRun_few _ _ _ _ _ _ _ (by decide), aliasRun_few _ _ _ _ _ _ _ (by decide)]
+    exact ⟨rfl, trivial⟩
+  | cons a rest =>
+    have hne' : a ≠ Coll.handleName st.coll.next := fun e => hne (by simp [e])
+    simp only at hfuel ⊢
+    obtain ⟨k, rfl⟩ : ∃ k, fuel = k + 3 * arrLen st.coll.tbl a + 8 :=
+      ⟨fuel - (3 * arrLen st.coll.tbl a + 8), by omega⟩
+    have h0 := sfa_runF depth 0 a rest vars st hfree hfree1 hne' (hok a rfl) hstale hcI hcF
+    rw [show 0 + 3 * arrLen st.coll.tbl a + 8 = 3 * arrLen st.coll.tbl a + 8 by omega] at h0
+    rw [sfa_runF depth k a rest vars st hfree hfree1 hne' (hok a rfl) hstale hcI hcF, h0]
+    refine ⟨rfl, ?_⟩
+    cases tget st.coll.tbl a with
+    | none => trivial
+    | some v => cases v <;> trivial
+
+/-- the budget `runScriptCmd` runs with covers arrays of up to 33330 cells -/
+example : 3 * 33330 + 8 ≤ scriptFuel := by decide
 
 /-- the budget `runScriptCmd` runs with is above the bound -/
 example : 4 ≤ scriptFuel := by decide
